@@ -124,22 +124,6 @@ func realDecode(phrase string) (e [16]byte, err error, pan string) {
 
 func realChecksum(e [16]byte) uint64 { return wallet.VerifBIP39Checksum(&e) }
 
-// errClass is what the error text says, for the distribution in the evidence only. Nothing is
-// judged by it (the property does not fix which of several applicable errors a malformed phrase
-// gets, in which order the validations run, or how errors are worded): the correspondence and
-// the monitors compare accept / reject and the entropy.
-func errClass(err error) int {
-	switch s := err.Error(); {
-	case strings.HasPrefix(s, "wrong number of words"):
-		return 1
-	case strings.HasPrefix(s, "unrecognized word"):
-		return 2
-	case strings.HasPrefix(s, "invalid checksum"):
-		return 3
-	}
-	return 0
-}
-
 func hilo(e [16]byte) (hi, lo uint64) {
 	for i := 0; i < 8; i++ {
 		hi = hi<<8 | uint64(e[i])
@@ -190,8 +174,7 @@ func (h *h20) checkEncode(e [16]byte, toCoq bool, tag string) {
 type decObs struct {
 	ok     bool
 	e      [16]byte
-	class  int
-	errTxt string
+	errTxt string // quoted in failure details only; nothing is decided from it
 	pan    string
 }
 
@@ -203,7 +186,7 @@ func (o decObs) coq() string {
 		hi, lo := hilo(o.e)
 		return fmt.Sprintf("OOk %d %d", hi, lo)
 	}
-	return fmt.Sprintf("OErr %d", o.class)
+	return "OErr 0" // rejected; the number is an unused annotation (the runner ignores it)
 }
 
 func observeDecode(phrase string) decObs {
@@ -212,7 +195,7 @@ func observeDecode(phrase string) decObs {
 		return decObs{pan: pan}
 	}
 	if err != nil {
-		return decObs{class: errClass(err), errTxt: err.Error()}
+		return decObs{errTxt: err.Error()}
 	}
 	return decObs{ok: true, e: e}
 }
@@ -238,16 +221,16 @@ func (h *h20) checkDecode(ts []token, toCoq bool, tag string) decObs {
 		h.res.Count("decode-result:panic")
 	case o.ok:
 		h.res.Count("decode-result:ok")
-	default:
-		h.res.Count(fmt.Sprintf("decode-result:err-class-%d", o.class))
-		// observation, never judged: does the reported error name a defect the phrase has?
+	default: // counted by the structure of the phrase the harness built, never by the error text
 		switch {
-		case o.class == 0:
-			h.res.Count("observed:error-text-not-classified")
-		case o.class == 1 && len(ts) != 12, o.class == 2 && !allKnown(ts), o.class == 3 && wellformed:
-			h.res.Count("observed:error-names-a-defect-of-the-phrase")
+		case len(ts) != 12 && !allKnown(ts):
+			h.res.Count("decode-result:rejected:wrong-count-and-unknown-word")
+		case len(ts) != 12:
+			h.res.Count("decode-result:rejected:wrong-count")
+		case !allKnown(ts):
+			h.res.Count("decode-result:rejected:unknown-word")
 		default:
-			h.res.Count("observed:error-names-no-defect-of-the-phrase")
+			h.res.Count("decode-result:rejected:twelve-list-words")
 		}
 	}
 	if kind != "" {
@@ -313,6 +296,9 @@ func shrinkEntropy(e [16]byte, fails func([16]byte) bool) [16]byte {
 
 func shrinkTokens(h *h20, ts []token, fails func([]token) bool) []token {
 	ts = append([]token(nil), ts...)
+	if len(ts) > 64 {
+		return ts // thousands of words: each probe costs a full decode, keep the case as it is
+	}
 	for i := range ts {
 		if ts[i].Idx > 0 {
 			x := append([]token(nil), ts...)
@@ -448,6 +434,11 @@ func runC20(c *hx.Ctx) {
 	// 10. call histories: seed arrays reused and overwritten in place, the same index again
 	runHistories(h, r)
 
+	// 11.-13. generalisation pass: extreme sizes, boundary shapes, phrase-level call histories
+	runExtremes(h, r)
+	runBoundaries(h, r)
+	runPhraseHistories(h, r)
+
 	res.Exhaustive = true // the single-position sweeps and single-bit patterns are enumerated, not sampled
 	res.Sample(map[string]any{"entropy": "00000000000000000000000000000000", "phrase": first(realEncode(zero))})
 	e := randEntropy(r)
@@ -492,6 +483,8 @@ func (h *h20) replay(path string) {
 		checkDerivation(h, e, []uint64{p.Index})
 	case "history":
 		h.checkHistory(p.History, true, "replay")
+	case "phrase-history": // the whole stage: the failing history is one of its directed or seeded ones
+		runPhraseHistories(h, h.c.R)
 	case "concurrent": // the schedule is not replayable: the whole concurrent stage is run again
 		runConcurrency(h, h.c.R)
 	case "vector":
